@@ -96,3 +96,7 @@ Definition chk_insdraw (c : nat * list (list cand) * list nat) : bool :=
 (* draws: (self.indices after populate, [(pool row handed out, populated flag afterwards)]) *)
 Definition chk_draws (c : list nat * list (nat * bool)) : bool :=
   let '(perm, obs) := c in nbl_eqb (draws (length obs) perm) obs.
+
+(* ImportanceFlowProposal.draw_from_flows: (the one batch of candidates, ids returned) *)
+Definition chk_fromflows (c : list cand * list nat) : bool :=
+  let '(cs, ids) := c in nl_eqb (map cid (ins_from_flows cs)) ids.
